@@ -24,6 +24,7 @@ type Obligation struct {
 	Extra   []Term // additional assumptions (replay: small-scope bounds)
 	Spec    *Expr  // ensures: the clause itself (replay evaluates it on the real outputs)
 	Bound   string // non-empty: checked only under this bound on the inputs (bounded stand-in, not a proof)
+	FullReach Term // bounded obligations: the hypotheses without the bound (thorough tier attempts the full clause)
 	relaxAxioms bool // cover checks: retry without the quantified background axioms
 }
 
@@ -429,6 +430,15 @@ func (vc *VC) setMapHeap(st *State, kind string, k, v Sort, h Term) {
 }
 
 // havocAll starts a new heap epoch: every heap and map heap becomes unconstrained.
+// havocAllLoop: the havoc at a loop head when the body may write anything. Nothing is kept: the
+// body itself may write the cells that calls cannot reach.
+func (vc *VC) havocAllLoop(st *State) {
+	saved := vc.captured
+	vc.captured = nil
+	vc.havocAll(st)
+	vc.captured = saved
+}
+
 func (vc *VC) havocAll(st *State) {
 	type kept struct {
 		c capturedCell
